@@ -8,6 +8,7 @@ import TplModel.Html.Engine
 import TplModel.Exp.ScopeTree
 import TplModel.Sys.Reload
 import TplModel.Sys.FsParse
+import TplModel.Sys.Xtpl
 import TplModel.Proofs.RenderRefineBase
 /-! Request handlers of the JSON-lines driver: one JSON object in, one JSON object out. -/
 namespace Ops
@@ -172,6 +173,24 @@ def fsparseOp (j : Json) : Json :=
     | .err .walk => "walk" | .err .open => "open" | .err .load => "load" | .err .duplicate => "duplicate"
   Json.mkObj [("r", rs), ("files", Json.arr (st.files.toArray.map Json.str)), ("templates", Json.arr (st.templates.toArray.map Json.str)),
     ("opens", Json.arr (st.opens.toArray.map Json.str)), ("closes", Json.arr (st.closes.toArray.map Json.str))]
+
+/-- xtpl extraction over the ${} blocks of a template set:
+    {"keywords":flag,"blocks":[src…]} ↦ catalogue rows [ctx, id, plural, number of references] in first-occurrence order -/
+def xtplOp (j : Json) : Json :=
+  match XT.parseKeywords ((str? j "keywords").getD XT.defaultKeywordsFlag) with
+  | none => Json.mkObj [("r", "badkeywords")]
+  | some kws =>
+    let blocks := ((j.getObjValAs? (Array String) "blocks").toOption.getD #[]).toList
+    let trees : Option (List ((Nat → Nat → Nat) × EL.E)) := (blocks.zipIdx).mapM fun (src, b) =>
+      match EL.parseCode src with
+      | .accept e => some ((fun n i => b * 10000 + n * 100 + i), e)
+      | _ => none
+    match trees with
+    | none => Json.mkObj [("r", "unsupported")]
+    | some ts =>
+      let rows := XT.catalogue (XT.extractMany kws ts)
+      Json.mkObj [("r", "ok"), ("rows", Json.arr (rows.toArray.map fun (k, pl, refs) =>
+        Json.arr #[Json.str k.1, Json.str k.2, Json.str pl, (refs.length : Nat)]))]
 
 /-! ### whole engine: load files into a manager, look a template up, execute it (faithful model and specification) -/
 
